@@ -169,7 +169,7 @@ func H_C17_backoff() {
 	vAssume(vAnd(c.MaxBackoff >= c.InitialBackoff, c.MaxBackoff <= 5*time.Minute))
 	kmax := 2
 	if vTier() == 1 {
-		kmax = 10
+		kmax = 4
 	}
 	k := vChoice("k", kmax) + 1 // number of the wait we look at
 	calls := 0
